@@ -144,6 +144,24 @@ theorem step_reReq_of_guard (s : St) (id : Nat) (k : Kind) (a b : Bool)
   have hg := (reReq_guard s id).2 ⟨hid, hl, ha⟩
   simp only [step, hg, if_true]
 
+/-- a request of the server's own either changes nothing (it is answered) or — only when it is taken
+    for an answer — filters the layer registry -/
+theorem step_serverReq (s : St) (id : Nat) (c : Bool) :
+    step s (.serverReq id c) = (s, [.pong id]) ∨
+    (c = true ∧ step s (.serverReq id c) =
+      ({ s with layerReg := s.layerReg.filter (fun x => x.id != id) }, [.swallowed id])) := by
+  by_cases hg : (c && s.layerReg.any (fun e => e.id == id)) = true
+  · refine Or.inr ⟨?_, ?_⟩
+    · cases c
+      · simp only [Bool.false_and, Bool.false_eq_true] at hg
+      · rfl
+    · simp only [step, hg, if_true]
+  · refine Or.inl ?_
+    simp only [step, hg, if_false, Bool.false_eq_true]
+
+theorem step_serverReq_false (s : St) (id : Nat) : step s (.serverReq id false) = (s, [.pong id]) := by
+  simp only [step, Bool.false_and, Bool.false_eq_true, if_false]
+
 /-! ### theorems -/
 
 theorem inv_init : Inv init := by
@@ -206,6 +224,10 @@ theorem inv_step (s : St) (h : Inv s) (op : Op) : Inv (step s op).1 := by
           · simp only [List.mem_singleton] at he; subst he; exact hle
         · exact nodup_append_fresh _ _ _ h3 (fun e he => hl e he)
       · exact ⟨h1, hA', h3, hA⟩
+  | serverReq id c =>
+    rcases step_serverReq s id c with e | ⟨_, e⟩ <;> rw [e]
+    · exact ⟨h1, h2, h3, h4⟩
+    · exact ⟨fun x hx => h1 x (List.mem_filter.1 hx).1, h2, nodup_filter_map _ _ _ h3, h4⟩
   | deliver id r =>
     unfold Inv
     rw [deliver_next]
@@ -239,6 +261,8 @@ theorem next_mono_step (s : St) (op : Op) : s.next ≤ (step s op).1.next := by
     rcases step_reReq s id k a b with e | ⟨_, e⟩ <;> rw [e]
     · exact Nat.le_refl _
     · simp only; split <;> exact Nat.le_refl _
+  | serverReq id c =>
+    rcases step_serverReq s id c with e | ⟨_, e⟩ <;> rw [e] <;> exact Nat.le_refl _
   | deliver id r => rw [deliver_next]; exact Nat.le_refl _
 
 theorem next_mono_run (s : St) (ops : List Op) : s.next ≤ (run s ops).1.next := by
@@ -274,7 +298,8 @@ theorem filter_append_fresh {α : Type} (f : α → Nat) (l : List α) (x : α) 
     List.filter_nil, List.append_nil]
 
 theorem other_ops_keep_entries (s : St) (h : Inv s) (id : Nat) (hid : id ≤ s.next) (op : Op)
-    (hop : ∀ r, op ≠ .deliver id r) (hre : ∀ k a b, op ≠ .reReq id k a b) :
+    (hop : ∀ r, op ≠ .deliver id r) (hre : ∀ k a b, op ≠ .reReq id k a b)
+    (hsrv : ∀ i, op ≠ .serverReq i true) :
     (step s op).1.layerReg.filter (fun e => e.id == id) = s.layerReg.filter (fun e => e.id == id) ∧
     (step s op).1.appReg.filter (fun e => e.id == id) = s.appReg.filter (fun e => e.id == id) := by
   have _ := h
@@ -299,6 +324,10 @@ theorem other_ops_keep_entries (s : St) (h : Inv s) (id : Nat) (hid : id ≤ s.n
       split
       · exact ⟨filter_append_fresh LayerEntry.id _ _ id hne, filter_append_fresh AppEntry.id _ _ id hne⟩
       · exact ⟨rfl, filter_append_fresh AppEntry.id _ _ id hne⟩
+  | serverReq i c =>
+    cases c with
+    | true => exact absurd rfl (hsrv i)
+    | false => rw [step_serverReq_false]; exact ⟨rfl, rfl⟩
   | deliver id' r =>
     have hne : id' ≠ id := by
       intro e; subst e; exact hop r rfl
@@ -309,7 +338,8 @@ theorem other_ops_keep_entries (s : St) (h : Inv s) (id : Nat) (hid : id ≤ s.n
       exact filter_keep AppEntry.id _ id id' hne
 
 theorem other_ops_keep_entries_run (s : St) (h : Inv s) (id : Nat) (hid : id ≤ s.next) (ops : List Op)
-    (hop : ∀ op ∈ ops, ∀ r, op ≠ .deliver id r) (hre : ∀ op ∈ ops, ∀ k a b, op ≠ .reReq id k a b) :
+    (hop : ∀ op ∈ ops, ∀ r, op ≠ .deliver id r) (hre : ∀ op ∈ ops, ∀ k a b, op ≠ .reReq id k a b)
+    (hsrv : ∀ op ∈ ops, ∀ i, op ≠ .serverReq i true) :
     (run s ops).1.layerReg.filter (fun e => e.id == id) = s.layerReg.filter (fun e => e.id == id) ∧
     (run s ops).1.appReg.filter (fun e => e.id == id) = s.appReg.filter (fun e => e.id == id) := by
   induction ops generalizing s with
@@ -317,9 +347,10 @@ theorem other_ops_keep_entries_run (s : St) (h : Inv s) (id : Nat) (hid : id ≤
   | cons op ops ih =>
     simp only [run]
     have h1 := other_ops_keep_entries s h id hid op (hop op List.mem_cons_self)
-      (hre op List.mem_cons_self)
+      (hre op List.mem_cons_self) (hsrv op List.mem_cons_self)
     have h2 := ih (step s op).1 (inv_step s h op) (Nat.le_trans hid (next_mono_step s op))
       (fun o ho => hop o (List.mem_cons_of_mem _ ho)) (fun o ho => hre o (List.mem_cons_of_mem _ ho))
+      (fun o ho => hsrv o (List.mem_cons_of_mem _ ho))
     exact ⟨h2.1.trans h1.1, h2.2.trans h1.2⟩
 
 theorem mem_filter_bne {α : Type} (f : α → Nat) (l : List α) (id : Nat) :
@@ -355,7 +386,8 @@ theorem complete_fields (k : Kind) (hk : k.complete = true) :
 
 theorem app_request_reply (pre post : List Op) (k : Kind) (hk : k.complete = true) (a b r : Bool)
     (hpost : ∀ op ∈ post, ∀ r', op ≠ .deliver ((run init pre).1.next + 1) r')
-    (hre : ∀ op ∈ post, ∀ k' a' b', op ≠ .reReq ((run init pre).1.next + 1) k' a' b') :
+    (hre : ∀ op ∈ post, ∀ k' a' b', op ≠ .reReq ((run init pre).1.next + 1) k' a' b')
+    (hsrv : ∀ op ∈ post, ∀ i, op ≠ .serverReq i true) :
     let id := (run init pre).1.next + 1
     let s := (run (step (run init pre).1 (.appReq k a b)).1 post).1
     (step s (.deliver id r)).2 =
@@ -379,7 +411,7 @@ theorem app_request_reply (pre post : List Op) (k : Kind) (hk : k.complete = tru
     simp [id]
   have hnext : id ≤ (step (run init pre).1 (.appReq k a b)).1.next := by
     simp only [step, kr, if_true]; exact Nat.le_refl _
-  have hkeep := other_ops_keep_entries_run _ hI2 id hnext post hpost hre
+  have hkeep := other_ops_keep_entries_run _ hI2 id hnext post hpost hre hsrv
   have hL : s.layerReg.find? (fun e => e.id == id) = some ⟨k.owner, id, true, true⟩ :=
     find_of_filter _ _ _ (hkeep.1.trans hL0)
   have hA : s.appReg.find? (fun e => e.id == id) = some ⟨id, a, b⟩ :=
@@ -396,7 +428,8 @@ theorem replay_invokes_nothing (s : St) (id : Nat) (r r' : Bool) :
 
 theorem lib_request_reply (pre post : List Op) (k : Kind) (hk : k.complete = true) (r : Bool)
     (hpost : ∀ op ∈ post, ∀ r', op ≠ .deliver ((run init pre).1.next + 1) r')
-    (hre : ∀ op ∈ post, ∀ k' a' b', op ≠ .reReq ((run init pre).1.next + 1) k' a' b') :
+    (hre : ∀ op ∈ post, ∀ k' a' b', op ≠ .reReq ((run init pre).1.next + 1) k' a' b')
+    (hsrv : ∀ op ∈ post, ∀ i, op ≠ .serverReq i true) :
     let id := (run init pre).1.next + 1
     let s := (run (step (run init pre).1 (.libReq k)).1 post).1
     (step s (.deliver id r)).2 = [.layerCb k.owner id r, .appEntity id] := by
@@ -415,7 +448,7 @@ theorem lib_request_reply (pre post : List Op) (k : Kind) (hk : k.complete = tru
     exact filter_fresh AppEntry.id _ _ hfr.2.2.2
   have hnext : id ≤ (step (run init pre).1 (.libReq k)).1.next := by
     simp only [step, kr, if_true]; exact Nat.le_refl _
-  have hkeep := other_ops_keep_entries_run _ hI2 id hnext post hpost hre
+  have hkeep := other_ops_keep_entries_run _ hI2 id hnext post hpost hre hsrv
   have hL : s.layerReg.find? (fun e => e.id == id) = some ⟨k.owner, id, true, true⟩ :=
     find_of_filter _ _ _ (hkeep.1.trans hL0)
   have hA : s.appReg.find? (fun e => e.id == id) = none :=
